@@ -29,17 +29,29 @@ Inductive status :=
 
 (* fval: the item carried by a put future (the (item, future) pair stored in
    _putters); 0 for the other kinds. *)
-Record fut := mkfut { fk : fkind; ftmo : bool; fval : Z; fstat : status }.
+(* the timeout argument of put / get / join:
+     TNone  - timeout=None
+     TTimer - a deadline in the future (number = absolute time, timedelta = relative);
+              its timer fires at the schedule's [Expire k]
+     TZero  - 0 / 0.0 / timedelta(0) (or any deadline already past): the timer is due
+              at once and fires the next time the loop runs *)
+Inductive tmok := TNone | TTimer | TZero.
+Definition has_tmo (t : tmok) : bool := match t with TNone => false | _ => true end.
+Definition is_timer (t : tmok) : bool := match t with TTimer => true | _ => false end.
+Definition is_zero (t : tmok) : bool := match t with TZero => true | _ => false end.
+
+Record fut := mkfut { fk : fkind; ftmo : tmok; fval : Z; fstat : status }.
 
 (* One event of a schedule.  Futures are numbered in creation order; every
    Put / Get / Join that does not raise creates exactly one. *)
 Inductive op :=
-| Put (x : Z) (tmo : bool)      (* q.put(x, timeout=... if tmo) *)
+| Put (x : Z) (tmo : tmok)      (* q.put(x, timeout=... if tmo) *)
 | PutNowait (x : Z)
-| Get (tmo : bool)
+| Get (tmo : tmok)
 | GetNowait
+| Next                          (* q.__aiter__().__anext__(): async iteration *)
 | TaskDone
-| Join (tmo : bool)
+| Join (tmo : tmok)
 | Expire (k : nat)              (* the timer armed for future k fires (the loop runs up to it) *)
 | Cancel (k : nat)              (* the holder calls future k .cancel() *)
 | Drain.                        (* the loop runs all queued callbacks *)
@@ -68,12 +80,19 @@ Definition full (m : nat) (n : nat) : bool := if m =? 0 then false else m <=? n.
 Fixpoint memn (k : nat) (l : list nat) : bool :=
   match l with [] => false | j :: l' => (j =? k) || memn k l' end.
 
-(* loop drains: every queued chain_future copy runs *)
+(* the loop runs: every queued chain_future copy runs (callbacks queued by
+   call_soon run before the timers that became due), then every timer that is
+   already due fires: a still-pending future created with a zero timeout gets
+   TimeoutError *)
 Definition drain_fut (f : fut) : fut :=
-  match fstat f with Ready => set_fstat f ResNone | _ => f end.
+  match fstat f with
+  | Ready => set_fstat f ResNone
+  | Pending => if is_zero (ftmo f) then set_fstat f TimedOut else f
+  | _ => f
+  end.
 (* Event.set() reaching a pending waiter: a bare waiter future is resolved at
    once; behind gen.with_timeout the wrapper is resolved by a queued callback *)
-Definition resolve_join (f : fut) : fut := set_fstat f (if ftmo f then Ready else ResNone).
+Definition resolve_join (f : fut) : fut := set_fstat f (if has_tmo (ftmo f) then Ready else ResNone).
 
 (* ------------------------------------------------------------------ *)
 (* Part 2: implementation model                                        *)
@@ -202,7 +221,7 @@ Definition i_get_nowait (kd : qkind) (m : nat) (s0 : ist) : res * ist :=
 
 Definition new_fut (s : ist) (f : fut) : ist := with_futs s (ifuts s ++ [f]).
 
-Definition i_put (kd : qkind) (m : nat) (x : Z) (tmo : bool) (s0 : ist) : res * ist :=
+Definition i_put (kd : qkind) (m : nat) (x : Z) (tmo : tmok) (s0 : ist) : res * ist :=
   let k := length (ifuts s0) in
   match i_put_nowait kd m x s0 with
   | (RNone, s) => (RFut k, new_fut s (mkfut FPut tmo x ResNone))
@@ -210,7 +229,7 @@ Definition i_put (kd : qkind) (m : nat) (x : Z) (tmo : bool) (s0 : ist) : res * 
   | (e, s) => (e, s)
   end.
 
-Definition i_get (kd : qkind) (m : nat) (tmo : bool) (s0 : ist) : res * ist :=
+Definition i_get (kd : qkind) (m : nat) (tmo : tmok) (s0 : ist) : res * ist :=
   let k := length (ifuts s0) in
   match i_get_nowait kd m s0 with
   | (RItem z, s) => (RFut k, new_fut s (mkfut FGet tmo 0 (ResItem z)))
@@ -240,7 +259,7 @@ Definition i_task_done (s : ist) : res * ist :=
   end.
 
 (* join -> Event.wait *)
-Definition i_join (tmo : bool) (s : ist) : res * ist :=
+Definition i_join (tmo : tmok) (s : ist) : res * ist :=
   let k := length (ifuts s) in
   if iev s then (RFut k, new_fut s (mkfut FJoin tmo 0 ResNone))
   else (RFut k, mkist (iq s) (igetters s) (iputters s) (iunf s) (iev s) (iwaiters s ++ [k])
@@ -253,7 +272,7 @@ Definition i_drain (s : ist) : ist := with_futs s (map drain_fut (ifuts s)).
 Definition i_expire (k : nat) (s0 : ist) : ist :=
   let s := i_drain s0 in
   match nth_error (ifuts s) k with
-  | Some f => if is_pending (fstat f) && ftmo f then with_futs s (upd (ifuts s) k TimedOut) else s
+  | Some f => if is_pending (fstat f) && is_timer (ftmo f) then with_futs s (upd (ifuts s) k TimedOut) else s
   | None => s
   end.
 
@@ -268,6 +287,7 @@ Definition istep (kd : qkind) (m : nat) (o : op) (s : ist) : res * ist :=
   | Put x tmo => i_put kd m x tmo s
   | PutNowait x => i_put_nowait kd m x s
   | Get tmo => i_get kd m tmo s
+  | Next => i_get kd m TNone s
   | GetNowait =>
       match i_get_nowait kd m s with
       | (RItem z, s') =>
@@ -347,6 +367,19 @@ Definition rm_getter (k : nat) (gs : list nat) : list nat :=
 Definition s_finish (k : nat) (v : status) (s : sst) : sst :=
   mksst (sq s) (rm_getter k (sgetters s)) (rm_putter k (sputters s)) (sunf s) (upd (sfuts s) k v).
 
+(* the loop runs: timers that are due fire, and the waiters they kill vanish *)
+Definition s_drain (s : sst) : sst :=
+  let fs := map drain_fut (sfuts s) in
+  mksst (sq s) (filter (livek gkey fs) (sgetters s)) (filter (livek pkey fs) (sputters s)) (sunf s) fs.
+
+Definition s_get_op (kd : qkind) (tmo : tmok) (s : sst) : res * sst :=
+  let k := length (sfuts s) in
+  match s_get_now kd s with
+  | (RItem z, s') => (RFut k, mksst (sq s') (sgetters s') (sputters s') (sunf s') (s_new s' (mkfut FGet tmo 0 (ResItem z))))
+  | (REmpty, s') => (RFut k, mksst (sq s') (sgetters s' ++ [k]) (sputters s') (sunf s') (s_new s' (mkfut FGet tmo 0 Pending)))
+  | r => r
+  end.
+
 Definition sstep (kd : qkind) (m : nat) (o : op) (s : sst) : res * sst :=
   let k := length (sfuts s) in
   match o with
@@ -356,12 +389,8 @@ Definition sstep (kd : qkind) (m : nat) (o : op) (s : sst) : res * sst :=
       | (_, s') => (RFut k, mksst (sq s') (sgetters s') (sputters s' ++ [(x, k)]) (sunf s') (s_new s' (mkfut FPut tmo x Pending)))
       end
   | PutNowait x => s_put_now kd m x s
-  | Get tmo =>
-      match s_get_now kd s with
-      | (RItem z, s') => (RFut k, mksst (sq s') (sgetters s') (sputters s') (sunf s') (s_new s' (mkfut FGet tmo 0 (ResItem z))))
-      | (REmpty, s') => (RFut k, mksst (sq s') (sgetters s' ++ [k]) (sputters s') (sunf s') (s_new s' (mkfut FGet tmo 0 Pending)))
-      | r => r
-      end
+  | Get tmo => s_get_op kd tmo s
+  | Next => s_get_op kd TNone s
   | GetNowait => s_get_now kd s
   | TaskDone =>
       match sunf s with
@@ -373,9 +402,9 @@ Definition sstep (kd : qkind) (m : nat) (o : op) (s : sst) : res * sst :=
       (RFut k, mksst (sq s) (sgetters s) (sputters s) (sunf s)
                      (s_new s (mkfut FJoin tmo 0 (if sunf s =? 0 then ResNone else Pending))))
   | Expire j =>
-      let s1 := mksst (sq s) (sgetters s) (sputters s) (sunf s) (map drain_fut (sfuts s)) in
+      let s1 := s_drain s in
       (RNone, match nth_error (sfuts s1) j with
-              | Some f => if is_pending (fstat f) && ftmo f then s_finish j TimedOut s1 else s1
+              | Some f => if is_pending (fstat f) && is_timer (ftmo f) then s_finish j TimedOut s1 else s1
               | None => s1
               end)
   | Cancel j =>
@@ -383,7 +412,7 @@ Definition sstep (kd : qkind) (m : nat) (o : op) (s : sst) : res * sst :=
       | Some Pending | Some Ready => (RBool true, s_finish j Cancelled s)
       | _ => (RBool false, s)
       end
-  | Drain => (RNone, mksst (sq s) (sgetters s) (sputters s) (sunf s) (map drain_fut (sfuts s)))
+  | Drain => (RNone, s_drain s)
   end.
 
 (* ------------------------------------------------------------------ *)
@@ -413,6 +442,15 @@ Fixpoint srun (kd : qkind) (m : nat) (ops : list op) (s : sst) : list view * sst
       let '(r, s1) := sstep kd m o s in
       let '(vs, s2) := srun kd m ops' s1 in
       (sview m r s1 :: vs, s2)
+  end.
+
+(* Queue.__init__(maxsize): None -> TypeError, negative -> ValueError *)
+Inductive msz := MNone | MInt (z : Z).
+Inductive ctor_res := CTypeError | CValueError | COk (m : nat).
+Definition ctor (a : msz) : ctor_res :=
+  match a with
+  | MNone => CTypeError
+  | MInt z => if (z <? 0)%Z then CValueError else COk (Z.to_nat z)
   end.
 
 (* the state reached by an operation list (for invariants) *)
